@@ -16,4 +16,10 @@ def main():
     ok = ok and p.returncode == 0
     here = os.path.dirname(os.path.abspath(__file__))
     compileall.compile_dir(here, quiet=1)
+    # engine L: compile the Lean lemma files once and record a stamp (source hash) under /verif/build
+    from . import lemmas_t
+    for pid in ('C01', 'C18'):
+        for v in lemmas_t.lean_verdicts(pid, 'thorough'):
+            print(v)
+            ok = ok and v.status == 'discharged'
     return 0 if ok else 1
